@@ -92,7 +92,7 @@ fn noise_run(rng: &mut Rng, evs: &mut Vec<Value>) {
 }
 
 fn mixed_run(rng: &mut Rng, evs: &mut Vec<Value>) {
-    let nlpf = 1 + 2 * rng.below(16);
+    let nlpf = if rng.chance(0.2) { 1 } else { 1 + 2 * rng.below(16) }; // order 1 (a single tap) is a case of its own
     let h8: Vec<i64> = (0..nlpf).map(|_| rng.range(-8, 8)).collect();
     let lpf: Vec<f64> = h8.iter().map(|h| *h as f64 / 8.0).collect();
     let rate = 16000usize;
